@@ -155,7 +155,7 @@ def run(eng: Engine, ck: Check):
                 processing_set = nm        # get_uploading() is checked separately ("occupied slots definition")
             adds = [x for x in calls_in(gq.node) if call_name(x) == 'add' and unparse(x.func.value) == nm]
             outside = [x for x in adds if main_loop is None or main_loop not in list(ancestors(x))]
-            if adds and len(outside) == len(adds):
+            if True:
                 # the same set built by a loop of its own: every upload of the transfer list that is_processing() contributes its user
                 def builds(x):
                     lp = next((y for y in ancestors(x) if isinstance(y, (ast.For, ast.AsyncFor))), None)
@@ -166,8 +166,24 @@ def run(eng: Engine, ck: Check):
                     neg = [e_ for e_, pol_, _ in g_ if not pol_]
                     return len(pos) == len(g_) == 2 and any('is_upload()' in t_ for t_ in pos) and any('is_processing()' in t_ for t_ in pos) and not neg and \
                         bool(x.args) and mentions_attr(expand_aliases(gq, x.args[0]), 'username')
+            if adds and len(outside) == len(adds):
                 if all(builds(x) for x in adds) and main_loop is not None and all(x.lineno < main_loop.lineno for x in adds):
                     processing_set = nm
+                continue
+            if adds and outside != adds and all(builds(x) for x in adds) and main_loop is not None:
+                # the set is filled DURING the selecting pass (complete only when the pass is over): fine iff the selected list is
+                # filtered against it once more after the loop, before it is ranked / returned
+                lst = unparse(a.func.value)
+                post = [n_ for n_ in walk_local(gq.node) if isinstance(n_, ast.Assign) and unparse(n_.targets[0]) == lst and isinstance(n_.value, ast.ListComp) and
+                        n_.lineno > getattr(main_loop, 'end_lineno', main_loop.lineno) and len(n_.value.generators) == 1 and unparse(n_.value.generators[0].iter) == lst and
+                        unparse(n_.value.elt) == unparse(n_.value.generators[0].target) and not eng.guards_at(gq, n_)]
+                for n_ in post:
+                    tv_ = unparse(n_.value.generators[0].target)
+                    for i_ in n_.value.generators[0].ifs:
+                        for e_, pol_ in split_conj(i_, True):
+                            a_ = cmp_atom(e_)
+                            if a_ and a_[0] == 'in' and not pol_ and unparse(a_[1]) == f'{tv_}.username' and unparse(a_[2]) == nm:
+                                processing_set = nm
                 continue
             if adds:
                 cycle_set = nm
